@@ -82,8 +82,21 @@ func (e streamingReflEnc) Encode(v any) error {
 		_, _ = e.w.Write([]byte(`{"partial":[1,2,`))
 		return err
 	}
-	_, err = e.w.Write(append(b, '\n'))
-	return err
+	// the output leaves through ONE small scratch buffer that is reused for every chunk and wiped as soon as Write
+	// has returned (what bufio and hand-written streaming encoders do; io.Writer: "must not retain p")
+	b = append(b, '\n')
+	scratch := make([]byte, 16)
+	for len(b) > 0 {
+		n := copy(scratch, b)
+		if _, err := e.w.Write(scratch[:n]); err != nil {
+			return err
+		}
+		b = b[n:]
+		for i := range scratch {
+			scratch[i] = '#'
+		}
+	}
+	return nil
 }
 
 type cfgOpts struct {
